@@ -170,6 +170,7 @@ struct Sweep {
    std::deque<impl::Comment> comments;
    std::deque<impl::Annotation> annotations;
    std::list<impl::Module> modules;
+   bool twins_unavailable = false;            // the platform hash is not the one the twin generator inverts
 
    Sweep(impl::Lexicon& l, impl::Translation_unit& u, Rng& r) : lex(l), unit(u), rng(r), P(l, u, r) { }
 
